@@ -27,7 +27,13 @@ RULE = ("fold: random graph states on a real Workflow (attached files in every s
         "mv file, mv dir), real inotify -> real change_loop -> real record_change -> start_build_phase's FAILED "
         "reset + Watcher.run_once commit on one copy of the SQLite database versus startup.resume_from_db on the "
         "other copy; canonical dumps (attached files with state+digest+mode+size, steps with state/deferred/has "
-        "hash, nglob rows) must be equal; non-trivial when the operations changed at least one relevant path")
+        "hash, nglob rows) must be equal; non-trivial when the operations changed at least one relevant path.  "
+        "sys (E3): the real serve(do_watch=True) with simulated steps; 15 named histories (delete then recreate, "
+        "changed then restored, directory removed with matched files, moved directory (and back), new / removed / "
+        "renamed matching directory, new and lost glob match, output deleted / tampered, D10d, D15) and generated "
+        "projects (e3_gen, 1-3 phases of 1-3 edits): edits while watching, barrier sync, copy of tree + .stepup, "
+        "`rebuild` + wait versus a complete build by a fresh director on the copy; return-code class, all files, "
+        "directory set and canonical graph with digests must be equal; non-trivial when the watcher recorded a change")
 TRUSTED_BASE = [
     "Coq 8.16.1 kernel (vm_compute in Examples, witnesses and the correspondence evaluation)",
     "Print Assumptions: Closed under the global context for every C14 theorem",
@@ -45,7 +51,7 @@ ASSUMPTIONS = [
 
 SIG_D10 = "watch-vs-restart:nglob:matched-directory-change-not-queued"
 SIG_D10D = "watch-vs-restart:nglob:file-in-new-unwatched-directory-not-queued"
-SIG_D11 = "watch-commit:ConsistencyError:EXTERNAL-rehash-of-detached-node"
+SIG_D15 = "watch-commit:ConsistencyError:EXTERNAL-rehash-of-detached-node"
 
 HEADER = ("From Coq Require Import List NArith Bool.\nImport ListNotations.\n"
           "From SV Require Import lib.Bytes gen.GenWatch model.Watch.\nOpen Scope N_scope.\n"
@@ -271,7 +277,10 @@ async def _one_history(spec, ops, queued_during_build=0):
                     n0 = len(w.inotify.log)
                     all_items = []
                     for op in ops:
-                        pre_files = sorted(p for p, c in D.snapshot_tree(".").items() if c is not None)
+                        snap0 = D.snapshot_tree(".")
+                        pre_files = sorted(p for p, c in snap0.items() if c is not None)
+                        pre_dirs = sorted(p.rstrip("/") for p, c in snap0.items() if c is None)
+                        pre_empty = op[0] == "rmtree" and os.path.isdir(op[1]) and not os.listdir(op[1])
                         w0 = D.watches_dump(w)
                         if not D.apply_op(op):
                             continue
@@ -280,7 +289,8 @@ async def _one_history(spec, ops, queued_during_build=0):
                         n0 = len(w.inotify.log)
                         res["ops_applied"].append(op)
                         res["batches"].append({"op": op, "raw": raw, "items": items, "tree": _tree_entries(),
-                                               "w0": w0, "w1": D.watches_dump(w), "pre_files": pre_files})
+                                               "w0": w0, "w1": D.watches_dump(w), "pre_files": pre_files,
+                                               "pre_dirs": pre_dirs, "pre_empty": pre_empty})
                         all_items += items
                     res["watch_keys"] = sorted(D.watches_dump(w))
                     # the first `queued_during_build` items are treated as queued while the build ran
@@ -325,7 +335,7 @@ def _classify(res):
     if res.get("error"):
         if res["error"].startswith("ConsistencyError: Unexpected file hash update: cause=EXTERNAL") and \
                 any(st in res["error"] for st in ("state=UNDECLARED", "state=PLANNED", "state=VOLATILE")):
-            return {SIG_D11}
+            return {SIG_D15}
         return {"watch-commit:exception:" + res["error"].split(":")[0]}
     if res.get("restart_error"):
         return {"restart:exception:" + res["restart_error"].split(":")[0]}
@@ -349,6 +359,49 @@ def _classify(res):
         if sec != "nglobs":
             sigs.add(f"watch-vs-restart:{sec}:other")
     return sigs
+
+
+M_ISDIR, M_CREATE, M_DELETE, M_DELETE_SELF, M_MOVED_FROM, M_MOVED_TO, M_MOVE_SELF, M_IGNORED = (
+    0x40000000, 0x100, 0x200, 0x400, 0x40, 0x80, 0x800, 0x8000)
+
+
+def _dir_rows_mismatch(batch):
+    """The documented kernel rows for directory operations (model/Watch.v comment) versus the raw events.
+    Returns None when they agree or the operation is not a row of the table."""
+    op, w0 = batch["op"], batch["w0"]
+    pre_dirs = batch.get("pre_dirs")
+    if pre_dirs is None:
+        return None
+
+    def watched(p):
+        return w0.get(p, False)
+
+    def parent(p):
+        return os.path.dirname(p) or "."
+    raw = sorted((m, p) for m, p in batch["raw"] if not (m & M_IGNORED))
+    # a watch whose directory was renamed earlier keeps reporting under its old path: skip histories
+    # in which a watched directory is not where `watches` says (only happens after a directory move)
+    if any(v and k != "." and k not in pre_dirs for k, v in w0.items()):
+        return None
+    if op[0] == "mkdir":
+        exp = [(M_CREATE | M_ISDIR, op[1])] if watched(parent(op[1])) else []
+    elif op[0] == "mv" and op[1] in pre_dirs:
+        exp = []
+        if watched(parent(op[1])):
+            exp.append((M_MOVED_FROM | M_ISDIR, op[1]))
+        if watched(parent(op[2])):
+            exp.append((M_MOVED_TO | M_ISDIR, op[2]))
+        if watched(op[1]):
+            exp.append((M_MOVE_SELF, op[1]))
+    elif op[0] == "rmtree" and batch.get("pre_empty"):
+        exp = []
+        if watched(op[1]):
+            exp.append((M_DELETE_SELF, op[1]))
+        if watched(parent(op[1])):
+            exp.append((M_DELETE | M_ISDIR, op[1]))
+    else:
+        return None
+    return None if sorted(exp) == raw else {"expected": sorted(exp), "raw": raw}
 
 
 def _batch_checks(batch, facts):
@@ -436,7 +489,7 @@ WITNESSES = {
     "D10d-newdir": ({"dirs": ["d1"], "static": {"a.txt": "A"}, "extra": {"d1/x.dat": "x"},
                      "globs": [{"step": "./plan.py", "pattern": "*/x.dat"}]},
                     [["mkdir", "d5"], ["write", "d5/x.dat", "x"]]),
-    "D11-undeclared": ({"static": {"a.txt": "A"},
+    "D15-undeclared": ({"static": {"a.txt": "A"},
                         "steps": [{"cmd": "s1", "inp": ["a.txt", "nothere.txt"], "out": {"o1.txt": "O"}, "state": "PENDING"}],
                         "globs": [{"step": "./plan.py", "pattern": "*.txt"}]},
                        [["write", "nothere.txt", "x"]]),
@@ -467,7 +520,7 @@ WITNESSES = {
                     [["write", "b.txt", "x"]]),
 }
 EXPECT = {"D10-mkdir": SIG_D10, "D10-rmdir": SIG_D10, "D10-mvdir": SIG_D10, "D10d-newdir": SIG_D10D,
-          "D11-undeclared": SIG_D11}
+          "D15-undeclared": SIG_D15}
 
 
 def _report(ctx, name, spec, ops, res, sigs, seen):
@@ -528,6 +581,15 @@ def _run_histories(ctx, nrandom, do_model=True):
                 descr.append((kind, name, res["ops_applied"], res.get("items"), res["pre"], res["a"] if kind == "commit_model" else res["b"], res.get("error")))
                 ctx.case((kind, repr(spec), repr(ops)), nontrivial=changed)
             for b in res["batches"]:
+                mm = _dir_rows_mismatch(b)
+                if b["op"][0] in ("mkdir", "mv", "rmtree"):
+                    ctx.count("kernel_dir_rows_checked" if mm is None else "kernel_dir_rows_mismatch")
+                if mm is not None and "kernel-dir" not in seen:
+                    seen.add("kernel-dir")
+                    ctx.add_failure("correspondence", "kernel_dir_rows", "kernel-model:directory-operation-events",
+                                    f"documented kernel rows for {b['op']!r} with watches {b['w0']!r}: expected "
+                                    f"{mm['expected']!r}, inotify delivered {mm['raw']!r}",
+                                    witness={"case": name, "op": b["op"], "watches": b["w0"], **mm})
                 for kind, term in _batch_checks(b, ctx.facts):
                     checks.append(term)
                     descr.append((kind, name, b["op"], b["raw"], b["items"], b["w0"], b["w1"]))
@@ -552,6 +614,9 @@ def oracle(ctx):
     if ctx.stats.get("histories_skipped_no_inotify_instance"):
         ctx.notes.append(f"{ctx.stats['histories_skipped_no_inotify_instance']} histories skipped: no free inotify "
                          "instance (fs.inotify.max_user_instances exhausted by other processes)")
+    _run_sys(ctx, ctx.scale(10, 120))
+    if ctx.stats.get("sys_skipped_no_inotify_instance"):
+        ctx.notes.append(f"{ctx.stats['sys_skipped_no_inotify_instance']} full-system cases skipped: no free inotify instance")
     bad = common.run_cases(ctx, "loop", HEADER, checks, chunk=100)
     ctx.traces_validated += len(checks) - len(bad)
     seen = set()
@@ -567,6 +632,53 @@ def oracle(ctx):
                         witness={"kind": kind, "case": descr[i][1], "detail": [repr(x)[:2000] for x in descr[i][2:]]})
 
 
+def _run_sys(ctx, ngen):
+    """Full-system rebuild-vs-restart on E3 (harness/c14_sys.py): outputs, canonical graph, return code."""
+    from . import c14_sys as S
+    from . import e3_gen
+    seen = set()
+    cases = [(name, fac(), phases, {}) for name, (fac, phases) in S.NAMED.items()]
+    base = ctx.rng.randrange(10 ** 6)
+    for k in range(ngen):
+        proj, hist = e3_gen.gen_case(base + k, max_phases=3, watch_safe=True)
+        cases.append((f"gen-{base + k}", proj, [ph["edits"] for ph in hist], {"resources": "tok:1"}))
+    for name, proj, phases, kw in cases:
+        try:
+            results = S.run_case(proj, phases, **kw)
+        except S.Skip:
+            ctx.count("sys_skipped_no_inotify_instance")
+            continue
+        ctx.count("sys_cases")
+        for i, r in enumerate(results):
+            ctx.count("sys_phases")
+            ctx.count("sys_rc_" + str(r["restart_rc"]))
+            relevant = bool(r["observed"]["updated"] or r["observed"]["deleted"])
+            ctx.case(("sys", name, i, repr(r["edits"])), nontrivial=relevant)
+            if name in ("delete-then-recreate", "moved-directory") and i == 0:
+                ctx.sample({"sys": name, "edits": r["edits"], "observed": r["observed"], "watch_rc": r.get("watch_rc"),
+                            "restart_rc": r["restart_rc"], "diff": r["diff"]})
+            if not r["diff"]:
+                continue
+            if r.get("watch_error"):
+                sig = "sys:watch-phase:exception:" + r["watch_error"].split(":")[0]
+            elif name.startswith("D10d-"):
+                sig = SIG_D10D
+            else:
+                sig = "sys:watch-vs-restart:" + "+".join(sorted({d["field"] for d in r["diff"]}))
+            ctx.count("sys_phases_disagreeing")
+            if sig in seen:
+                continue
+            seen.add(sig)
+            ctx.add_failure("oracle", f"sys:rebuild-vs-restart:{name}", sig,
+                            f"{name} phase {i}: after {r['edits']!r} made while the real director was watching, "
+                            f"`rebuild` and a restart on a copy of the same tree and database differ: "
+                            f"rc {r.get('watch_rc')} vs {r['restart_rc']}, watcher observed {r['observed']!r}, "
+                            f"commands run {r.get('watch_executed')!r} vs {r.get('restart_executed')!r}, "
+                            f"differences {S.short_diff(r['diff'])!r}",
+                            witness={"case": name, "sys": True, "project": proj.to_json(), "phases": phases, "phase": i,
+                                     "build_kwargs": kw, "diff": S.short_diff(r["diff"], 8)})
+
+
 def search(ctx):
     _run_histories(ctx, 300, do_model=False)
 
@@ -574,7 +686,16 @@ def search(ctx):
 def replay(ctx, obj):
     w = obj["failure"].get("witness") or {}
     print("replaying", w.get("case"), w.get("ops"))
-    if "project" in w:
+    if w.get("sys"):
+        from . import c14_sys as S
+        from . import e3
+        results = S.run_case(e3.Project.from_json(w["project"]), w["phases"], **w.get("build_kwargs", {}))
+        for i, r in enumerate(results):
+            print("phase", i, "observed", r["observed"], "rc", r.get("watch_rc"), r["restart_rc"], "diff", S.short_diff(r["diff"]))
+            if r["diff"]:
+                ctx.add_failure("oracle", f"sys:rebuild-vs-restart:{w.get('case')}", obj["failure"]["signature"],
+                                f"replayed: {S.short_diff(r['diff'])!r}", witness=w)
+    elif "project" in w:
         res = D.run(_one_history(w["project"], w["ops"]), timeout=120)
         sigs = _classify(res) if (res["diff"] or res.get("error")) else set()
         print("diff:", res["diff"], "error:", res.get("error"), "signatures:", sorted(sigs))
